@@ -135,38 +135,4 @@ Section TEExpr.
     end.
 End TEExpr.
 
-(* ---------- dense polynomials, specification level ---------- *)
-Section PExpr.
-  Context {T : Type} (F : Fops T).
-  Let is0 := fun x => feqb F x (f0 F).
-
-  Fixpoint padd (p q : list T) : list T :=
-    match p, q with
-    | [], _ => q
-    | _, [] => p
-    | x :: p', y :: q' => fadd F x y :: padd p' q'
-    end.
-  Definition pneg (p : list T) : list T := map (fneg F) p.
-  Definition pscale (x : T) (p : list T) : list T := map (fmul F x) p.
-  Fixpoint pmul (p q : list T) : list T :=
-    match p with
-    | [] => []
-    | x :: p' => padd (pscale x q) (f0 F :: pmul p' q)
-    end.
-
-  (* all results canonical (trailing zeros removed), like the Rust constructors / operators *)
-  Definition pexpr (e : Z) (p q : list T) : list T :=
-    let P := trim is0 p in
-    let Q := trim is0 q in
-    trim is0
-      match e with
-      | 0 => P | 1 => Q
-      | 2 => padd P Q | 3 => padd Q P
-      | 4 => pmul P Q | 5 => pmul Q P
-      | 6 => padd P (pneg Q) | 7 => pneg (padd Q (pneg P))
-      | 8 => padd P [] | 9 => padd (padd P Q) (pneg Q)
-      | 10 => padd P (pneg P) | 11 => []
-      | 12 => pmul P [f1 F] | 13 => padd P P | 14 => pscale (fadd F (f1 F) (f1 F)) P
-      | _ => []
-      end.
-End PExpr.
+(* polynomial expressions: PolyExprs.v (built from the coq/C08 operator models) *)
